@@ -31,9 +31,8 @@ class FSMMachineMyBatis(FSMMachine):
         if memory.status == FSMStatus.CUSTOM_1:  # 在 # 之后
             if ch == "{":
                 return FSMOperate.add_cache_to(FSMStatus.CUSTOM_2).execute(memory, ch)
-            if ch == "<END>":
-                return FSMOperate.handle_cache_to_end(marks=AMTMark.NAME | AMTMark.COMMENT).execute(memory, ch)
-            return FSMOperate.add_cache_to(FSMStatus.IN_EXPLAIN_1).execute(memory, ch)
+            memory.status = FSMStatus.IN_EXPLAIN_1  # "#" 之后不是 "{"：与基础词法分析器的单行注释一致
+            return super().handle(memory, ch)
         if memory.status == FSMStatus.CUSTOM_2:  # MyBatis 匹配状态
             if ch == "}":
                 return FSMOperate.add_and_handle_cache_to_wait(marks=AMTMark.NAME | AMTMark.CUSTOM_1
